@@ -136,7 +136,7 @@ pub fn drop_stream(ctx: &Arc<RunCtx>, tls: &mut ThreadLocalState, p: usize) {
         let mid = def.items.iter().any(|op| ctx.recs[*op].start.load(ORD) != 0 && ctx.recs[*op].end.load(ORD) == 0);
         let produced = def.items.iter().filter(|op| ctx.recs[**op].end.load(ORD) != 0).count();
         let consumed = st.outputs.lock().unwrap().len();
-        let class = if mid { 2 } else if produced - consumed.min(produced) >= def.depth { 3 } else { 1 };
+        let class = if mid { 2 } else if produced - consumed.min(produced) >= st.cur_depth.load(ORD) as usize { 3 } else { 1 };
         st.drop_class.store(class, ORD);
         let _b = ctx.blocked(PIPE_BASE + p, PH_DROPSTREAM);
         if ctx.prog.panics {
